@@ -13,7 +13,14 @@ def run_cli(name, argv):
     old = sys.argv
     sys.argv = [name] + [str(a) for a in argv]
     try:
-        mod.main()
+        if any(str(a) in ("--progress", "-P") for a in argv):
+            import contextlib
+            import io
+
+            with contextlib.redirect_stderr(io.StringIO()):  # the progress bar itself is of no interest
+                mod.main()
+        else:
+            mod.main()
     except SystemExit as e:
         if e.code not in (0, None):
             raise CliExit("%s exited with %r (argv %r)" % (name, e.code, argv))
